@@ -9,7 +9,7 @@ Open Scope list_scope.
 Definition A := "c10_classes.A".
 Definition mk (id : string) (inst : obj) (info : list (string * string)) (child : bool) : fit :=
   mkFit id inst [("name", Some id); ("unique_tag", Some "t")] [("max_log_likelihood", 8%Z)]
-        [("is_complete", true)] info child.
+        [("is_complete", true)] info (if child then Some "f0" else None).
 
 (* instance.a = A(b=1.0, c=2.0), instance.d = 1.0 *)
 Definition f0 := mk "f0" (OInst "c10_classes.Root" [("a", OInst A [("b", OVal 8); ("c", OVal 16)]); ("d", OVal 8)]) [("k", "v")] false.
@@ -54,7 +54,7 @@ Proof. eexists. split; [vm_compute; reflexivity|]. vm_compute. repeat split. Qed
 
 (* ~(unique_tag == "t") on a fit whose unique_tag is NULL: not (NULL = 't') is NULL *)
 Definition f_null := mkFit "fn" (OInst "c10_classes.Root" [("a", OVal 8)]) [("name", Some "fn"); ("unique_tag", None)]
-                           [("max_log_likelihood", 8%Z)] [("is_complete", true)] [] false.
+                           [("max_log_likelihood", 8%Z)] [("is_complete", true)] [] None.
 Definition p_nattr := PNot (PAttr (AEqS "unique_tag" (Some "t"))).
 Example not_attr_null_refuted :
   exists q, compile pre4 p_nattr = Ok q /\ wf_fit f_null = true /\ sem q f_null = false /\ eval p_nattr f_null = true.
